@@ -168,6 +168,10 @@ func isNilValue(v Value) bool {
 		return true
 	case *Value:
 		return v == nil
+	case *SlicePtr:
+		return v == nil
+	case *StrPtr:
+		return v == nil
 	case []Value:
 		return v == nil
 	case *Map:
